@@ -1,3 +1,4 @@
+\* generated by lib/brokerlib.py mc_configs (kept here so that the model can be run by hand: tlc -config MC_small.cfg Broker.tla)
 CONSTANTS
   Proxies = {"p1"}
   Clients = {"c1"}
@@ -13,8 +14,12 @@ CONSTANTS
   CNatSet = {"unrestricted", "restricted", "unknown", "absent"}
   FpSet = {"default", "b2", "unlisted"}
   UnknownTargets = TRUE
+  Bridges = {"default", "b2"}
+  DupSids = FALSE
+  Rejects = TRUE
+  MaxDebug = 0
   None = None
 SPECIFICATION Spec
 VIEW view
-INVARIANTS TypeOK NoCrossWire OneOfferPerPoll OnePollPerOffer ClaimsDisjoint RelayURLRight UnlistedNeverMatched NATCompatible NoGhost GaugeIsIdmap HeapsInIdmap
+INVARIANTS TypeOK NoCrossWire OneOfferPerPoll OnePollPerOffer ClaimsDisjoint RelayURLRight UnlistedNeverMatched NATCompatible NoGhost GaugeIsIdmap HeapsInIdmap GaugeCountsHeaps
 PROPERTIES MatchRight EveryRequestCompletes
